@@ -248,6 +248,26 @@ theorem annotated_kind_stable (e : Expr) (t : Ty) (hwf : e.wf = true) (hacc : ch
 theorem compound_assign_same_policy (op : NumOp) (x e : NumTy) :
     resultNumericType op x e none = resultNumericType op x e (if op = .pow then none else none) := by simp
 
+/-- Compound assignment keeps the variable's kind: `v op= e` is emitted as `v = v op e`; when the checker accepts it
+(the result of `v op e` has `v`'s type), the emitted right-hand side has `v`'s Rust type — for a local variable and for
+a `mut` parameter alike (both are `.var vt` since the by-value fix). -/
+theorem compound_assignment_keeps_kind (op : NumOp) (vt : NumTy) (e : Expr)
+    (hwf : (Expr.bin op (.var vt) e).wf = true)
+    (hacc : checkerType (.bin op (.var vt) e) = Ty.ofNum vt) :
+    rustType (lower (.bin op (.var vt) e)) = some (Ty.ofNum vt) :=
+  annotated_kind_stable _ _ hwf hacc
+
+/-- … and a compound assignment that would change the kind (`n: int`, `n /= 2` or `n += 1.5`) is not accepted. -/
+theorem compound_assignment_kind_change_rejected (op : NumOp) (e : Expr)
+    (hwf : (Expr.bin op (.var .int) e).wf = true)
+    (hfloat : specType (.bin op (.var .int) e) = .float) :
+    checkerType (.bin op (.var .int) e) ≠ Ty.ofNum .int := by
+  rw [checker_eq_spec _ hwf, hfloat]; simp [Ty.ofNum]
+
+example : (Expr.bin .add (.var .float) (.bin .mul (.var .int) (.intLit 2))).wf = true
+    ∧ checkerType (.bin .add (.var .float) (.bin .mul (.var .int) (.intLit 2))) = Ty.ofNum .float := by decide
+example : specType (.bin .div (.var .int) (.intLit 2)) = .float := by decide
+
 /-! Concrete instances (incl. the exponent shape that was misclassified before the fix). -/
 example : phases_agree (.bin .pow (.var .int) (.neg (.paren (.intLit 0)))) rfl
     = phases_agree (.bin .pow (.var .int) (.neg (.paren (.intLit 0)))) rfl := rfl
